@@ -13,6 +13,7 @@ import (
 	"github.com/sergeymakinen/go-crypt/bcrypt"
 	"github.com/sergeymakinen/go-crypt/des"
 	"github.com/sergeymakinen/go-crypt/desext"
+	crypthash "github.com/sergeymakinen/go-crypt/hash"
 	"github.com/sergeymakinen/go-crypt/md5"
 	"github.com/sergeymakinen/go-crypt/nthash"
 	"github.com/sergeymakinen/go-crypt/sha1"
@@ -235,9 +236,113 @@ func desIntOps(c *Ctx) {
 	}
 }
 
+// coherenceOps (C12, second half): for accepted NON-canonical spellings — implicit rounds, absent / explicit Argon2
+// version, Sun MD5 with either prefix and with or without the separator — Check succeeds exactly when Key with the
+// parameters Params extracts re-encodes to the stored digest.
+func coherenceOps(c *Ctx) {
+	pw := []byte("coherence pw")
+	type form struct {
+		scheme, hash string
+		rederive     func() (string, error) // digest text re-derived from Params(hash)
+	}
+	var forms []form
+	last := func(h string) string { return h[strings.LastIndex(h, "$")+1:] }
+	// SHA-crypt: explicit and implicit rounds=5000
+	for _, id := range []string{"sha256", "sha512"} {
+		id := id
+		newHash := map[string]func(string, uint32) (string, error){"sha256": sha256.NewHash, "sha512": sha512.NewHash}[id]
+		h, err := newHash(string(pw), 5000)
+		if err != nil {
+			continue
+		}
+		for _, spelled := range []string{h, strings.Replace(h, "rounds=5000$", "", 1)} {
+			spelled := spelled
+			forms = append(forms, form{id, spelled, func() (string, error) {
+				if id == "sha256" {
+					salt, r, err := sha256.Params(spelled)
+					if err != nil {
+						return "", err
+					}
+					k, err := sha256.Key(pw, salt, r)
+					return string(crypthash.LittleEndianEncoding.EncodeToString(k)), err
+				}
+				salt, r, err := sha512.Params(spelled)
+				if err != nil {
+					return "", err
+				}
+				k, err := sha512.Key(pw, salt, r)
+				return string(crypthash.LittleEndianEncoding.EncodeToString(k)), err
+			}})
+		}
+	}
+	// Argon2: version absent (1.0), v=16, v=19 — each with the digest of its own version
+	for _, ver := range []int{argon2.Version10, argon2.Version13} {
+		salt := []byte(base64.RawStdEncoding.EncodeToString([]byte("saltsalt"))) // Key takes the salt as its base64 text
+		k, err := argon2.Key(pw, salt, 16, 2, 2, &argon2.CompatibilityOptions{Prefix: argon2.Prefix2i, Version: ver})
+		if err != nil {
+			c.Fail("incoherent", "argon2.Key failed while preparing a reference hash: "+err.Error(), map[string]string{"suite": "scheme", "scheme": "argon2"})
+			continue
+		}
+		body := "m=16,t=2,p=2$" + string(salt) + "$" + base64.RawStdEncoding.EncodeToString(k)
+		spellings := []string{fmt.Sprintf("$argon2i$v=%d$%s", ver, body)}
+		if ver == argon2.Version10 {
+			spellings = append(spellings, "$argon2i$"+body)
+		}
+		for _, spelled := range spellings {
+			spelled := spelled
+			forms = append(forms, form{"argon2", spelled, func() (string, error) {
+				s, m, t, p, o, err := argon2.Params(spelled)
+				if err != nil {
+					return "", err
+				}
+				k, err := argon2.Key(pw, s, m, t, p, o)
+				return base64.RawStdEncoding.EncodeToString(k), err
+			}})
+		}
+	}
+	// Sun MD5: rounds 0 and 7; NewHash's own spelling and the one without the separator
+	for _, r := range []uint32{0, 7} {
+		h, err := sunmd5.NewHash(string(pw), r)
+		if err != nil {
+			continue
+		}
+		for _, spelled := range []string{h} {
+			spelled := spelled
+			forms = append(forms, form{"sunmd5", spelled, func() (string, error) {
+				s, rr, o, err := sunmd5.Params(spelled)
+				if err != nil {
+					return "", err
+				}
+				k, err := sunmd5.Key(pw, s, rr, o)
+				return string(crypthash.LittleEndianEncoding.EncodeToString(k)), err
+			}})
+		}
+	}
+	apis := map[string]schemeAPI{}
+	for _, a := range schemeAPIs {
+		apis[a.name] = a
+	}
+	for _, f := range forms {
+		verdict := goCheck(apis[f.scheme], f.hash, string(pw), 0)
+		d, err := f.rederive()
+		c.Direct++
+		in := map[string]string{"suite": "scheme", "scheme": f.scheme, "hash": hx([]byte(f.hash)), "password": hx(pw)}
+		switch {
+		case err != nil:
+			c.Fail("incoherent", fmt.Sprintf("%s: Params/Key fail on an accepted spelling (%v) while Check = %s", f.scheme, err, verdict), in)
+		case (d == last(f.hash)) != (verdict == "nil"):
+			c.Fail("incoherent", fmt.Sprintf("%s: Check = %s but Key(Params(hash)) re-encodes to %q, stored digest %q", f.scheme, verdict, d, last(f.hash)), in)
+		case verdict != "nil":
+			c.Fail("incoherent", fmt.Sprintf("%s: a hash built from Key's own result does not verify: Check = %s", f.scheme, verdict), in)
+		}
+		c.Op(fmt.Sprintf("check %s %s %s 0", f.scheme, hx([]byte(f.hash)), hx(pw)), verdict)
+	}
+}
+
 func suiteScheme(c *Ctx) {
 	if c.Scheme(0) { // scheme-independent part: first shard
 		desIntOps(c)
+		coherenceOps(c)
 	}
 	if h, ok := c.Replay["hash"]; ok {
 		for _, api := range schemeAPIs {
@@ -258,6 +363,24 @@ func suiteScheme(c *Ctx) {
 		if !c.Scheme(sidx) {
 			continue
 		}
+		if api.name == "desext" {
+			// the exported upper bound itself (2^24-1 rounds ≈ 7 s): what NewHash writes must be what Params reads back
+			max := uint32(desext.MaxRounds)
+			h, err := api.newHash("bound", max, 0)
+			in := map[string]string{"suite": "scheme", "scheme": "desext", "rounds": fmt.Sprint(max), "password": hx([]byte("bound"))}
+			c.Direct++
+			if err != nil {
+				c.Fail("newhash-failed", "desext.NewHash failed at the exported MaxRounds: "+err.Error(), in)
+			} else {
+				in["hash"] = hx([]byte(h))
+				ps := strings.Fields(goParams(api, h))
+				if len(ps) < 3 || ps[0] != "ok" || ps[2] != fmt.Sprint(max) {
+					c.Fail("not-canonical", fmt.Sprintf("desext.NewHash(pw, MaxRounds=%d) = %q but Params reads back %v", max, h, ps), in)
+				} else if r := goCheck(api, h, "bound", 0); r != "nil" {
+					c.Fail("fresh-hash-rejected", "desext.Check(NewHash(p, MaxRounds), p) = "+r, in)
+				}
+			}
+		}
 		for li, l := range pwLens {
 			if l > api.maxPw {
 				l = api.maxPw - (li % 3)
@@ -271,6 +394,24 @@ func suiteScheme(c *Ctx) {
 				if len(pw) > 120 {
 					pw = pw[:120]
 					pw = []byte(strings.ToValidUTF8(string(pw), ""))
+				}
+				switch li % 3 {
+				case 1:
+					// the UTF-8 → UTF-16LE step on every plane: BMP, surrogate pairs, the extremes
+					pool := []rune{'a', 'é', '€', '中', 0xD7FF, 0xE000, 0xFFFD, 0xFFFF, 0x10000, 0x1F600, 0x1F4A9, 0x2F800, 0x10FFFF}
+					var rs []rune
+					for k := 0; k < 1+l%40; k++ {
+						rs = append(rs, pool[c.Rng.Intn(len(pool))])
+					}
+					pw = []byte(string(rs))
+				case 2:
+					// ill-formed UTF-8: lone continuation / lead bytes, an encoded surrogate, an overlong form, a truncated sequence
+					bad := []string{"\x80", "\xff", "\xc3", "\xed\xa0\x80", "\xc0\xaf", "\xf0\x9f\x98", "\xf4\x90\x80\x80", "ok", "é", "\U0001F600"}
+					var sb strings.Builder
+					for k := 0; k < 1+l%12; k++ {
+						sb.WriteString(bad[c.Rng.Intn(len(bad))])
+					}
+					pw = []byte(sb.String())
 				}
 			}
 			cost := api.costs[li%len(api.costs)]
@@ -456,15 +597,27 @@ func suiteClassify(c *Ctx) {
 					map[string]string{"suite": "classify", "scheme": api.name, "hash": hx([]byte(t)), "password": hx([]byte(pw)), "class": "explicit-zero-rounds"})
 			}
 		case "argon2":
-			saltRaw := []byte("saltsalt")
-			k, kerr := argon2.Key([]byte(pw), saltRaw, 8, 1, 1, &argon2.CompatibilityOptions{Prefix: argon2.Prefix2id, Version: argon2.Version10})
-			if kerr == nil {
-				body := "m=8,t=1,p=1$" + base64.RawStdEncoding.EncodeToString(saltRaw) + "$" + base64.RawStdEncoding.EncodeToString(k)
+			saltText := base64.RawStdEncoding.EncodeToString([]byte("saltsalt")) // Key takes the salt as its base64 text
+			k, kerr := argon2.Key([]byte(pw), []byte(saltText), 8, 1, 1, &argon2.CompatibilityOptions{Prefix: argon2.Prefix2id, Version: argon2.Version10})
+			if kerr != nil {
+				c.Fail("newhash-failed", "argon2.Key failed while preparing a v1.0 reference hash: "+kerr.Error(), map[string]string{"suite": "classify", "scheme": "argon2"})
+			} else {
+				body := "m=8,t=1,p=1$" + saltText + "$" + base64.RawStdEncoding.EncodeToString(k)
 				c.Direct += 2
 				if r := goCheck(api, "$argon2id$"+body, pw, 0); r != "nil" {
 					c.Fail("wellformed-rejected", "argon2.Check of a version-less (v1.0) hash with the correct password = "+r,
 						map[string]string{"suite": "classify", "scheme": "argon2", "hash": hx([]byte("$argon2id$" + body)), "password": hx([]byte(pw))})
 				}
+				// the same hash with the version spelled out must verify too (Check must use the parsed version)
+				if r := goCheck(api, "$argon2id$v=16$"+body, pw, 0); r != "nil" {
+					c.Fail("wellformed-rejected", "argon2.Check of a v=16 hash with the correct password = "+r+" although the version-less spelling of the same hash verifies",
+						map[string]string{"suite": "classify", "scheme": "argon2", "hash": hx([]byte("$argon2id$v=16$" + body)), "password": hx([]byte(pw))})
+				}
+				if r := goCheck(api, "$argon2id$v=19$"+body, pw, 0); r != "mismatch" {
+					c.Fail("misclassified", "argon2.Check of a v1.0 digest relabelled v=19 with the correct password = "+r+" (expected the mismatch sentinel: the version changes the digest)",
+						map[string]string{"suite": "classify", "scheme": "argon2", "hash": hx([]byte("$argon2id$v=19$" + body)), "password": hx([]byte(pw))})
+				}
+				c.Direct += 2
 				t := "$argon2id$v=0$" + body
 				if r := goCheck(api, t, pw, 0); r == "nil" || r == "mismatch" {
 					c.Fail("out-of-range-cost-accepted", fmt.Sprintf("argon2.Check(%q, correct password) = %s: version 0 is unsupported, yet v=0 is read as \"absent\" (version 1.0)", t, r),
